@@ -270,6 +270,9 @@ RESERVED_WORDS = frozenset(
 )
 """Words that, on their own, are not lexed or parsed as a variable name."""
 
+LOOP_WORDS = frozenset(["limit", "offset", "cols", "reversed", "continue"])
+"""Words that, on their own, are read as part of a loop expression's options."""
+
 
 def _quote_escaped(value: str) -> str:
     """Return _value_ surrounded by quotes.
@@ -318,10 +321,11 @@ class PathToken(TokenT):
                 elif (
                     not nested
                     and len(self.path) == 1
-                    and segment in RESERVED_WORDS
+                    and (segment in RESERVED_WORDS or segment in LOOP_WORDS)
                 ):
-                    # On its own, a reserved word would not be read as a variable.
-                    # Inside brackets it is.
+                    # On its own, a reserved word would not be read as a variable,
+                    # and neither would an option name in a loop expression; a
+                    # token does not know where it stands. Inside brackets it is.
                     buf.append(f"[{_quote_escaped(segment)}]")
                 else:
                     buf.append(segment)
